@@ -18,6 +18,9 @@ R03.d  rebuild order agrees with the validator: the per-machine sequences
        handed to ``Schedule(schedule=...)`` are sorted by a key under which
        any sequence accepted by ``check_schedule`` (prev.end <= next.start)
        is reproduced: start time first, end time (or duration) second.
+R03.e  no function of these modules modifies the object of a mutable default
+       argument (directly, through a local alias, or with ``+=``): the result
+       of a call must not depend on earlier calls.
 """
 
 from __future__ import annotations
@@ -41,6 +44,7 @@ MANIFEST = {
         "by (start, end), which reproduces every sequence the validator "
         "accepts, zero durations included. Not decided: feasibility/optimality "
         "of the values the solver returns, bounds."
+        " Also decided: no function of these modules accumulates into a mutable default argument."
     ),
     "note": "OR-Tools' CamelCase and snake_case spellings are both recognised. The solver's own correctness is trusted.",
     "technique": "path automaton (rebind-before-use, must-call-before-Solve) + constraint-shape matching + sort-key vs validator-relation agreement",
@@ -72,6 +76,9 @@ def _rel(e):
 
 def run(ctx):
     chk, repo = ctx.chk, ctx.repo
+    from .common import check_mutable_defaults
+
+    check_mutable_defaults(ctx, "R03.e", ("job_shop_lib.constraint_programming",), "the CP-SAT solver")
     for rid, txt in (
         ("R03.a", "model / solver / variable table / objective variable are rebound on every solve path before first use"),
         ("R03.b", "every path to Solve() built the complete model (variables, end=start+duration, job precedence, per-machine no-overlap, max-equality, Minimize)"),
@@ -85,7 +92,7 @@ def run(ctx):
         raise AnalysisError("ORToolsSolver.solve vanished")
     _find_roles(ctx, solve)
     chk.analysed["solver_state_roles"] = dict(ROLE)
-    eng = ctx.engine(relevant=_rel, max_depth=5, unroll=1)
+    eng = ctx.engine(relevant=_rel, max_depth=5, unroll=1, budget=120000)
     paths = eng.paths(solve, cls)
     chk.analysed["solve_paths"] = len(paths)
 
@@ -238,6 +245,24 @@ def _builds_int_vars(ctx, F, value, _depth=0):
     return False
 
 
+def _is_objective_var(ctx, F, e) -> bool:
+    """``e`` denotes the objective variable: the role attribute itself, a local
+    read from it, or the once-bound local whose value is stored in it."""
+    if e is None:
+        return False
+    mk = "self." + ROLE["makespan"]
+    if ast.unparse(e) == mk or ctx.norm.xtext(F, e) == mk:
+        return True
+    if isinstance(e, ast.Name) and len(ctx.flow.defs(F).of(e.id)) == 1:
+        for n in own_nodes(F.node):
+            if (
+                isinstance(n, ast.Assign) and len(n.targets) == 1 and ast.unparse(n.targets[0]) == mk
+                and isinstance(n.value, ast.Name) and n.value.id == e.id
+            ):
+                return True
+    return False
+
+
 def _find_roles(ctx, solve):
     """The attribute names playing the two roles, found by shape (so a rename
     of the private attributes is not an analysis error):
@@ -248,17 +273,15 @@ def _find_roles(ctx, solve):
     for n in own_nodes(F.node):
         if isinstance(n, ast.Assign) and len(n.targets) == 1:
             t = n.targets[0]
-            if (
-                isinstance(t, ast.Subscript) and isinstance(t.value, ast.Attribute) and isinstance(t.value.value, ast.Name)
-                and t.value.value.id == "self" and table is None
-                and _builds_int_vars(ctx, F, n.value)
-            ):
-                table = t.value.attr
-            if (
-                isinstance(t, ast.Attribute) and isinstance(t.value, ast.Name) and t.value.id == "self"
-                and isinstance(n.value, ast.Call) and isinstance(n.value.func, ast.Attribute) and canon(n.value.func.attr) == "NewIntVar"
-            ):
-                mk = t.attr
+            if isinstance(t, ast.Subscript) and table is None and _builds_int_vars(ctx, F, n.value):
+                # the table itself or a local alias of it (tbl = self.X; tbl[op] = ...)
+                base = t.value if isinstance(t.value, ast.Attribute) else ctx.norm.xexpr(F, t.value)
+                if isinstance(base, ast.Attribute) and isinstance(base.value, ast.Name) and base.value.id == "self":
+                    table = base.attr
+            if isinstance(t, ast.Attribute) and isinstance(t.value, ast.Name) and t.value.id == "self":
+                v = n.value if isinstance(n.value, ast.Call) else ctx.norm.xexpr(F, n.value)
+                if isinstance(v, ast.Call) and isinstance(v.func, ast.Attribute) and canon(v.func.attr) == "NewIntVar":
+                    mk = t.attr
     if table is None or mk is None:
         raise AnalysisError(f"ORToolsSolver: variable table / objective variable attributes not recognised (table={table}, makespan={mk})")
     ROLE["table"], ROLE["makespan"] = table, mk
@@ -427,10 +450,9 @@ def _shapes(ctx, cls):
                 chk.violation("R03.b", F, c2, f"interval variable built as ({a0}, {a1}, {a2}), expected (start, duration, end)", loc=F.loc(c2))
     # ---- makespan = max of all ends, minimise it
     c, _ = found["maxeq"][0]
-    a0 = ast.unparse(c.args[0]) if c.args else ""
     src = ctx.norm.xexpr(F, c.args[1]) if len(c.args) > 1 else None
     ok = False
-    if a0 == "self." + ROLE["makespan"] and isinstance(src, (ast.ListComp, ast.GeneratorExp)) and len(src.generators) == 1:
+    if c.args and _is_objective_var(ctx, F, c.args[0]) and isinstance(src, (ast.ListComp, ast.GeneratorExp)) and len(src.generators) == 1:
         g = src.generators[0]
         it = ast.unparse(g.iter)
         if it in (f"self.{ROLE['table']}.values()",) and not g.ifs:
@@ -455,7 +477,7 @@ def _shapes(ctx, cls):
             loc=F.loc(c),
         )
     c, _ = found["minim"][0]
-    if c.args and ast.unparse(c.args[0]) == "self." + ROLE["makespan"]:
+    if c.args and _is_objective_var(ctx, F, c.args[0]):
         chk.ok("R03.b", solve.qualname, F.loc(c), "Minimize(makespan)")
     else:
         chk.violation("R03.b", F, c, f"the objective is `{ast.unparse(c)}`, not Minimize(self.{ROLE['makespan']})", loc=F.loc(c))
@@ -481,6 +503,24 @@ def _no_overlap(ctx, F, solve, c):
     if any(isinstance(x, (ast.If, ast.Break, ast.Continue)) for x in ast.walk(mloop) if x is not mloop and isinstance(x, (ast.If, ast.Break, ast.Continue))):
         # conditionals inside the per-machine loop (other than in nested helper inlines) may skip intervals
         conds = [x for x in ast.walk(mloop) if isinstance(x, (ast.If, ast.Break, ast.Continue))]
+        # not adding the constraint for a machine with fewer than two intervals
+        # changes nothing (no-overlap over 0 or 1 intervals is vacuous)
+        atxt = ctx.norm.xtext(F, arg).replace(" ", "") if arg is not None else None
+        raw = ast.unparse(arg).replace(" ", "") if arg is not None else None
+        harmless = set()
+        for x in conds:
+            if not isinstance(x, ast.If) or x.orelse:
+                continue
+            t = ast.unparse(x.test).replace(" ", "")
+            tx = ctx.norm.xtext(F, x.test).replace(" ", "")
+            for a in {atxt, raw} - {None}:
+                enough = {f"len({a})>=2", f"len({a})>1", f"2<=len({a})", f"1<len({a})"}
+                few = {f"len({a})<2", f"len({a})<=1", f"2>len({a})", f"1>=len({a})"}
+                if (t in enough or tx in enough) and any(y is c for y in ast.walk(x)):
+                    harmless.add(id(x))
+                if (t in few or tx in few) and len(x.body) == 1 and isinstance(x.body[0], ast.Continue):
+                    harmless |= {id(x), id(x.body[0])}
+        conds = [x for x in conds if id(x) not in harmless]
         if conds:
             return bad("conditional statements inside the per-machine loop")
     it = mloop.iter
@@ -678,7 +718,7 @@ def _status(ctx, cls, solve_raw):
     else:
         chk.violation("R03.c", solve_raw, st, f"status text `{ast.unparse(st)}` does not depend on the solver status", loc=solve.loc(st))
     mk = kv.get("makespan")
-    if mk is not None and isinstance(mk, ast.Call) and canon(getattr(mk.func, "attr", "")) == "Value" and mk.args and ast.unparse(mk.args[0]) == "self." + ROLE["makespan"]:
+    if mk is not None and isinstance(mk, ast.Call) and canon(getattr(mk.func, "attr", "")) == "Value" and mk.args and _is_objective_var(ctx, solve, mk.args[0]):
         chk.ok("R03.c", solve_raw.qualname, solve.loc(mk), "reported makespan = solver.Value(objective variable)")
     else:
         chk.violation("R03.c", solve_raw, mk, f"the reported makespan is `{ast.unparse(mk) if mk is not None else 'missing'}`, not the solver's value of the objective variable")
